@@ -165,15 +165,21 @@ class Pre:
     """One abstract pre-state of family S: link L with the given end list; vertices a, b, c whose link lists
     are [seg, (M,) L?, seg']; bystander M = DirectedEdge(a, d)."""
 
-    def __init__(self, h: H, lcls, ends, memo="empty", flag=False, segs=True):
+    def __init__(self, h: H, lcls, ends, memo="empty", flag=False, segs=True, vcls="Vertex"):
         self.h = h
-        h.reset()
         self.lcls, self.ends = lcls, ends
-        V = {}
-        for r in VROLES + ("d",):
-            V[r] = h.vertex(r)
-        L = h.link("L", lcls, [V[r] if r else None for r in ends])
-        Mk = h.link("M", "DirectedEdge", [V["a"], V["d"]])
+        key = ("S", lcls, vcls)
+        pool = h.rollback(key)
+        if pool is None:
+            h.reset()
+            pool = {r: h.vertex(r, vcls) for r in VROLES + ("d",)}
+            pool["L"] = h.link("L", lcls, [])
+            pool["M"] = h.link("M", "DirectedEdge", [])
+            h.checkpoint(key, pool)
+        V = {r: pool[r] for r in VROLES + ("d",)}
+        L, Mk = pool["L"], pool["M"]
+        L.fields["_vertices"] = Seq([V[r] if r else None for r in ends], "list")
+        Mk.fields["_vertices"] = Seq([V["a"], V["d"]], "list")
         self.V, self.links = V, {"L": L, "M": Mk}
         for r in VROLES:
             items = []
@@ -293,10 +299,11 @@ def shape_class(ends, r=None):
     return f"ends={n},maxmult={mult},{rel}"
 
 
-def replay_core(lcls, ends, op, r):
+def replay_core(lcls, ends, op, r, vcls="Vertex"):
     L = ["from edgegraph.structure import Vertex, Link, TwoEndedLink, DirectedEdge, UnDirectedEdge",
          "class SymTwo(TwoEndedLink): pass", "class SymLink(Link): pass",
-         "a, b, c = Vertex(), Vertex(), Vertex()",
+         "class SymFalsyVert(Vertex):\n    def __bool__(self): return False",
+         f"a, b, c = {vcls}(), {vcls}(), {vcls}()",
          f"L = {lcls}()", "for v in list(L.vertices): L.unlink_from(v)   # start from an empty end list"]
     for e in ends:
         L.append(f"L.add_vertex({e})")
@@ -315,11 +322,11 @@ class Rec:
         self.__dict__.update(kw)
 
 
-def core_runs(h, maxlen, memo="empty", flag=False, res=None, classes=LCLASSES):
+def core_runs(h, maxlen, memo="empty", flag=False, res=None, classes=LCLASSES, vcls="Vertex"):
     for lcls in classes:
         for ends in shapes(maxlen):
             for op, r in core_ops(lcls):
-                p = Pre(h, lcls, ends, memo, flag)
+                p = Pre(h, lcls, ends, memo, flag, vcls=vcls)
                 try:
                     out, mr = do_core(p, op, r)
                 except Unknown as u:
@@ -329,7 +336,8 @@ def core_runs(h, maxlen, memo="empty", flag=False, res=None, classes=LCLASSES):
                     continue
                 post, links = p.post()
                 yield Rec(family="S", lcls=lcls, ends=ends, op=op, arg=r, out=out, mr=mr, p=p, pre=p.pre, post=post, links=links,
-                          model=p.model, qual=QUAL[op], icls=shape_class(ends, r), replay=replay_core(lcls, ends, op, r))
+                          model=p.model, qual=QUAL[op], icls=shape_class(ends, r) + (",falsy-vertices" if vcls != "Vertex" else ""),
+                          replay=replay_core(lcls, ends, op, r, vcls))
 
 
 def ctor_runs(h, res=None, memo="empty", flag=False):
@@ -405,8 +413,16 @@ class PreC:
 
     def __init__(self, h, joins, selfloop=False, kpos=0, memo="empty", flag=False):
         self.h = h
-        h.reset()
-        V = {r: h.vertex(r) for r in VROLES}
+        key = ("C", tuple(c for c, _ in joins))
+        pool = h.rollback(key)
+        if pool is None:
+            h.reset()
+            pool = {r: h.vertex(r) for r in VROLES}
+            for i, (cls, orient) in enumerate(joins):
+                pool[f"J{i}"] = h.link(f"J{i}", cls, [])
+            pool["K"] = h.link("K", "DirectedEdge", [])
+            h.checkpoint(key, pool)
+        V = {r: pool[r] for r in VROLES}
         self.V = V
         a, b, c = V["a"], V["b"], V["c"]
         if selfloop:
@@ -415,11 +431,12 @@ class PreC:
         self.links = {}
         js = []
         for i, (cls, orient) in enumerate(joins):
-            ends = [a, b] if orient == "ab" else [b, a]
-            l = h.link(f"J{i}", cls, ends)
+            l = pool[f"J{i}"]
+            l.fields["_vertices"] = Seq([a, b] if orient == "ab" else [b, a], "list")
             self.links[l.name] = l
             js.append(l)
-        K = h.link("K", "DirectedEdge", [a, c])
+        K = pool["K"]
+        K.fields["_vertices"] = Seq([a, c], "list")
         self.links["K"] = K
         al = list(js)
         al.insert(min(kpos, len(al)), K)
